@@ -500,7 +500,8 @@ pub fn run_property(ctx: &RunCtx, def: &PropertyDef, only_sub: Option<&str>) -> 
         "wall_s": wall,
         "violations": violations.len(),
     });
-    let evdir = ctx.root.join("evidence");
+    // sensitivity experiments (tools/mutant.sh) redirect their evidence so that committed evidence always comes from the unchanged tree
+    let evdir = std::env::var("VERIF_EVIDENCE_DIR").map(PathBuf::from).unwrap_or_else(|_| ctx.root.join("evidence"));
     let _ = std::fs::create_dir_all(&evdir);
     if only_sub.is_none() {
         let _ = std::fs::write(
